@@ -412,9 +412,11 @@ def run(tier, seed, replay=None):
         cases += gen_send_cases(rng, 80 if q else 1500)
     lap("build done")
     lines = [c[1] for c in cases]
-    iout, crashes = run_parallel(impl, lines, workers=12)
+    # pause between two pieces of a stream written to the loopback socket (microseconds)
+    gap = ("1500",) if q else ("3000",)
+    iout, crashes = run_parallel(impl, lines, workers=12, args=gap, timeout=600 if q else 3000)
     lap("impl run")
-    mout, mcr = run_parallel(model, [l for l in lines], workers=4)
+    mout, mcr = run_parallel(model, [l for l in lines], workers=4 if q else 12, timeout=600 if q else 3000)
     # spec oracle queries
     sq = []
     for tag, l in cases:
@@ -427,7 +429,7 @@ def run(tier, seed, replay=None):
             sq.append("spec b64e %s" % t[1])
         else:
             sq.append("# none")
-    sout, _ = run_parallel(model, sq, workers=4)
+    sout, _ = run_parallel(model, sq, workers=4 if q else 12, timeout=600 if q else 3000)
     lap("model+spec run")
 
     hist, classes, distinct = {}, set(), set()
